@@ -202,8 +202,9 @@ def random_arch(rng: random.Random, *, dim: int, max_nodes: int, widths=(2, 3, 4
                 nodes.append({"op": "add", "ins": [b + 4, b + 2]})
         elif kind == "relu" and len(T) > 1:
             # element-wise ops of plinio's "features propagating" list; sigmoid is NOT zero-preserving
-            nodes.append({"op": rng.choices(["relu", "tanh", "silu", "drop", "id", "sig", "bns"],
-                                            weights=[6, 1, 1, 1, 1, 1 if nonzero_ops else 0, 2.5 if standalone_bn else 0])[0],
+            nodes.append({"op": rng.choices(["relu", "tanh", "silu", "drop", "id", "sig", "bns", "relu6", "lsm"],
+                                            weights=[6, 1, 1, 1, 1, 1 if nonzero_ops else 0, 2.5 if standalone_bn else 0,
+                                                     1 if standalone_bn else 0, 0.7 if (nonzero_ops and standalone_bn) else 0])[0],
                           "ins": [pick(T[1:])]})
         elif kind == "pool":
             c = [t for t in nf if t != 0 and sh[t]["sp"] >= 2 and (dim == 1 or sh[t]["spw"] >= 2)]
@@ -222,7 +223,8 @@ def random_arch(rng: random.Random, *, dim: int, max_nodes: int, widths=(2, 3, 4
                          and not sh[p]["flat"] and not sh[q]["flat"] and sh[p]["sp"] + sh[q]["sp"] <= 12]
             if pairs:
                 p, q = rng.choice(pairs)
-                nodes.append({"op": kind, "ins": [p, q], "d": rng.choice([1, -1])})
+                nodes.append({"op": kind, "ins": [p, q], "d": rng.choice([1, -1]),
+                              "sub": kind == "add" and standalone_bn and rng.random() < 0.25})      # a - b instead of a + b
         elif kind == "cat":
             pairs = [(p, q) for p in T for q in T if p != q and sh[p]["sp"] == sh[q]["sp"] and sh[p]["spw"] == sh[q]["spw"]
                      and sh[p]["flat"] == sh[q]["flat"] and sh[p]["ch"] + sh[q]["ch"] <= 16]
